@@ -102,6 +102,18 @@ Definition final_dropped (nq : nat) (c : circ) : list nat :=
 Definition optimise_resets (nq : nat) (c : circ) : circ :=
   consolidate_resets nq (remove_final_resets nq (remove_resets_in_zero_state nq c)).
 
+(* all reset-pass call sites of generate_cutting_experiments on one subexperiment
+   (cutting_experiments.py:156-159 and 166-169).  [c] is the subexperiment as it would be WITHOUT any
+   reset optimisation.  When the observable group is the identity on this subsystem
+   ([placeholder] = not cog.pauli_indices) the only measurement appended is the placeholder
+   `measure q0 -> observable_measurements[0]` (outcome ignored by reconstruction), and
+   _remove_final_resets already runs BEFORE it is appended. *)
+Definition subexperiment_resets (nq : nat) (placeholder : bool) (c : circ) : circ :=
+  optimise_resets nq
+    (if placeholder
+     then remove_final_resets nq (removelast c) ++ [last c (mkI (Barrier None) [] [])]
+     else c).
+
 (* ---------------------------------------------------------------------------------------
    DAG passes, at wire level.  The DAG of a circuit has one op node per instruction and, for every
    qubit wire, the chain of the instructions acting on that qubit in program order between the
